@@ -905,3 +905,74 @@ def large_oracle(case):
 SUBS.append(Sub("C05.large-sizes", large_oracle, enumerate=large_enum,
                 shards=(8, 16), budget=(900, 7200),
                 bucket=lambda msg: bucket(msg.split("]: ", 1)[-1])))
+
+
+# ------------------------------------------------------ read-only mapped input
+# Data loaded with np.load(..., mmap_mode="r") / np.memmap(mode="r") live in
+# pages the process may not write: a kernel that sorts or fills its input in
+# place dies with SIGSEGV.
+def _ro(a, tag):
+    a = np.ascontiguousarray(a)
+    d = os.path.join(os.path.dirname(os.path.dirname(os.path.dirname(
+        os.path.abspath(__file__)))), "out", "tmp")
+    os.makedirs(d, exist_ok=True)
+    f = os.path.join(d, f"ro-{os.getpid()}-{tag}.dat")
+    a.tofile(f)
+    if a.size == 0:
+        return a
+    m = np.memmap(f, dtype=a.dtype, mode="r", shape=a.shape)
+    os.unlink(f)
+    return m
+
+
+RO_FUNCS = {
+    "anderson_darling_test": lambda u, e, idx: metrics.anderson_darling_test(
+        _ro(u, "u")),
+    "cramer_von_mises_test": lambda u, e, idx: metrics.cramer_von_mises_test(
+        _ro(u, "u")),
+    "crps": lambda u, e, idx: metrics.crps(_ro(u, "u"), _ro(e, "e")),
+    "dscore": lambda u, e, idx: metrics.dscore(_ro(u, "u"), _ro(e, "e")),
+    "pit+alpha": lambda u, e, idx: (metrics.pit(_ro(u, "u"), _ro(e, "e")),
+                                    metrics.alpha(_ro(u, "u"), _ro(e, "e"),
+                                                  type="AD")),
+    "corr+iqr": lambda u, e, idx: (metrics.corr(_ro(u, "u"), _ro(e, "e")),
+                                   metrics.iqr(_ro(e, "e"), _ro(e, "e2"))),
+    "aggregate+flathomogen": lambda u, e, idx: (
+        dutils.aggregate(_ro(idx, "i"), _ro(u, "u")),
+        dutils.flathomogen(_ro(idx, "i"), _ro(u, "u")),
+        signatures.goue(_ro(idx, "i"), _ro(u, "u"))),
+    "qualitycontrol": lambda u, e, idx: (
+        qualitycontrol.islinear(_ro(u, "u"), 2, 1e-6, 0.),
+        qualitycontrol.ismisscens(_ro(u, "u"))),
+    "signatures": lambda u, e, idx: (signatures.eckhardt(_ro(u, "u")),
+                                     signatures.fdcslope(_ro(u, "u"))),
+    "armodels": lambda u, e, idx: (
+        armodels.armodel_sim(_ro(np.array([0.5, -0.2]), "p"), _ro(u, "u")),
+        armodels.armodel_residual(_ro(np.array([0.5, -0.2]), "p"),
+                                  _ro(u, "u"), 0.)),
+    "pareto_front": lambda u, e, idx: sutils.pareto_front(_ro(e, "e")),
+    "points_inside_polygon": lambda u, e, idx: gutils.points_inside_polygon(
+        _ro(e[:, :2], "pts"), _ro(np.array([[0., 0.], [1., 0.], [1., 1.],
+                                            [0., 1.]]), "poly")),
+    "grid-queries": lambda u, e, idx: (
+        Grid("g", 4, 4).coord2cell(_ro(e[:, :2] * 4, "xy")),
+        Grid("g", 4, 4).cell2coord(_ro(idx % 16, "c")),
+        Grid("g", 4, 4).slice(_ro(e[:2, :2] * 4, "sl"))),
+}
+
+
+@st.composite
+def ro_case(draw):
+    n = draw(st.sampled_from([2, 3, 5, 9, 40]))
+    return {"fn": draw(st.sampled_from(sorted(RO_FUNCS))), "n": n,
+            "m": draw(st.integers(2, 4)),
+            "seed": draw(st.integers(0, 10**6)), "extreme": True}
+
+
+@entry("readonly-mapped-inputs", ro_case(), n=(150, 1500), shards=(2, 4))
+def _(c):
+    rng = np.random.RandomState(c["seed"])
+    u = rng.uniform(0.01, 0.99, size=c["n"])            # unsorted, in (0, 1)
+    e = rng.uniform(0.01, 0.99, size=(c["n"], c["m"]))
+    idx = np.sort(rng.randint(0, 3, size=c["n"])).astype(np.int64)
+    RO_FUNCS[c["fn"]](u, e, idx)
